@@ -499,6 +499,49 @@ def x6(prog: Program, chk: Check) -> None:
                 f"in-memory uses {va}, file-backed uses {vb}")
 
 
+def x7(prog: Program, chk: Check) -> None:
+    chk.rule("X7", "tensor data are stored in double precision complex, shapes and dimensions as "
+             "integers, dt as float64; no narrowing cast on the write or read path", floor=3)
+    cf = prog.unit(f"{PT}:FileProcessTensor._create_file")
+    dts = {}
+    for st in walk_local(cf.node):
+        if isinstance(st, ast.Assign) and isinstance(st.value, ast.Call) and \
+                (dotted(st.value.func) or "").endswith("vlen_dtype"):
+            dts[dotted(st.targets[0])] = norm(st.value.args[0])
+    ok = dts.get("data_type") == "np.dtype('complex128')" and dts.get("shape_type") == "np.dtype('i')"
+    chk.add("X7", cf, f"variable-length types {dts}", ok,
+            "" if ok else "tensor data are not stored as complex128 / shapes not as integers")
+    table = {}
+    for c in walk_local(cf.node):
+        if isinstance(c, ast.Call) and method_call(c) and method_call(c)[1] == "create_dataset":
+            k = c.args[0].value if isinstance(c.args[0], ast.Constant) else "?"
+            dt = next((norm(kw.value) for kw in c.keywords if kw.arg == "dtype"), "<none>")
+            table.setdefault(k, set()).add(dt)
+    want = {"hs_dim": {"'i'"}, "dt": {"'float64'"}, "transform_in": {"'complex128'"},
+            "transform_out": {"'complex128'"}, "initial_tensor_data": {"data_type"},
+            "mpo_tensors_data": {"data_type"}, "cap_tensors_data": {"data_type"},
+            "initial_tensor_shape": {"shape_type"}, "mpo_tensors_shape": {"shape_type"},
+            "cap_tensors_shape": {"shape_type"}}
+    chk.add("X7", cf, "dataset dtypes", table == want,
+            "" if table == want else f"differs for {sorted(k for k in want if table.get(k) != want[k])}")
+    casts = []
+    for q in (f"{PT}:_set_data_and_shape", f"{PT}:_get_data_and_shape",
+              f"{PT}:FileProcessTensor.get_mpo_tensor", f"{PT}:SimpleProcessTensor.get_mpo_tensor",
+              f"{PT}:SimpleProcessTensor.export", f"{PT}:import_process_tensor"):
+        u = prog.unit(q)
+        for c in walk_local(u.node):
+            if isinstance(c, ast.Call) and isinstance(c.func, ast.Attribute) and \
+                    c.func.attr in ("astype", "round", "real", "view"):
+                casts.append(f"{q.split(':')[1]}: {norm(c)[:40]}")
+            if isinstance(c, ast.Call) and any(k.arg == "dtype" and "64" in norm(k.value)
+                                               and "complex128" not in norm(k.value)
+                                               and "float64" not in norm(k.value)
+                                               for k in c.keywords):
+                casts.append(f"{q.split(':')[1]}: {norm(c)[:40]}")
+    chk.add("X7", prog.unit(f"{PT}:_set_data_and_shape"), "no narrowing cast on the round-trip path",
+            not casts, "" if not casts else f"casts: {casts}")
+
+
 def run(prog: Program, chk: Check) -> None:
     chk.explanation = (
         "Decides the structural clauses of C16: writer/reader key-table agreement (X1), field "
@@ -516,3 +559,4 @@ def run(prog: Program, chk: Check) -> None:
     x4(prog, chk)
     x5(prog, chk)
     x6(prog, chk)
+    x7(prog, chk)
